@@ -4,7 +4,8 @@
 //! runtime on its own simulated kernel), driven by the main thread and up to two further dispatching
 //! threads; which thread runs at any time is the simulator's decision (`simkernel::multi`). A generated set
 //! of tasks (returning at once, yielding, sleeping, doing pipe I/O, spawning a local task) is dispatched; the
-//! main task awaits a generated subset of the receivers, joins the dispatcher at a generated point, and
+//! main task awaits a generated subset of the receivers (a task may also panic: its receiver then reports
+//! cancellation and nothing else is affected), joins the dispatcher at a generated point, and
 //! then looks at every remaining receiver.
 //!
 //! Oracles: a task body is never entered twice (`started-twice`); a receiver awaited before the join yields
@@ -68,6 +69,8 @@ enum Body {
     Sleep(u64),
     Pipe,
     Nested,
+    /// the task panics (the executor catches it): its receiver reports cancellation, nothing else is affected
+    Panic,
 }
 
 /// Returns `Pending` once, having woken itself.
@@ -109,12 +112,13 @@ fn dispatch() -> RunResult {
     let workers = 1 + sim::choose("workers", 3);
     let concurrent = sim::flip("concurrent", 1, 2);
     let bodies: Vec<Body> = (0..sim::range("tasks", 0, 6))
-        .map(|_| match sim::choose("task.body", 5) {
+        .map(|_| match sim::choose("task.body", 6) {
             0 => Body::Immediate,
             1 => Body::Yield(1 + sim::range("task.yields", 0, 3) as u32),
             2 => Body::Sleep([1u64, 50, 2000][sim::choose("task.sleep", 3)]),
             3 => Body::Pipe,
-            _ => Body::Nested,
+            4 => Body::Nested,
+            _ => Body::Panic,
         })
         .collect();
     // which thread dispatches which task: 0 = the main thread, 1..=extra = a dispatching thread of its own
@@ -190,6 +194,11 @@ fn dispatch() -> RunResult {
                                     }
                                     check_joined("after its pipe I/O");
                                 }
+                                Body::Panic => {
+                                    YieldNow(false).await;
+                                    finished[k].store(true, SeqCst);
+                                    panic!("[expected] task {k} panics");
+                                }
                                 Body::Nested => {
                                     let inner = compio_runtime::spawn(async move {
                                         YieldNow(false).await;
@@ -249,7 +258,8 @@ fn dispatch() -> RunResult {
                     }
                     let Some(rx) = receivers[k].take() else { continue };
                     match compio_runtime::time::timeout(limit, rx).await {
-                        Ok(Ok(v)) if v == value(k) => sim::log(|| format!("result of task {k} received")),
+                        Ok(Ok(v)) if v == value(k) && !matches!(bodies[k], Body::Panic) => sim::log(|| format!("result of task {k} received")),
+                        Ok(Err(_)) if matches!(bodies[k], Body::Panic) => sim::log(|| format!("task {k} panicked: its receiver reports cancellation")),
                         Ok(Ok(v)) => errs.push("wrong-result", format!("the receiver of task {k} yielded {v}, the task returns {}", value(k))),
                         Ok(Err(_)) => errs.push("lost-before-join", format!("the receiver of task {k} reported cancellation although the dispatcher had not been joined")),
                         Err(_) => errs.push("lost-before-join", format!("the result of task {k} did not arrive within {limit:?} of simulated time (started {} times, finished: {})", started[k].load(SeqCst), finished[k].load(SeqCst))),
@@ -278,7 +288,8 @@ fn dispatch() -> RunResult {
                 for k in 0..n {
                     let Some(mut rx) = receivers[k].take() else { continue };
                     match rx.try_recv() {
-                        Ok(Some(v)) if v == value(k) => {}
+                        Ok(Some(v)) if v == value(k) && !matches!(bodies[k], Body::Panic) => {}
+                        Err(_) if matches!(bodies[k], Body::Panic) => {}
                         Ok(Some(v)) => errs.push("wrong-result", format!("the receiver of task {k} yielded {v}, the task returns {}", value(k))),
                         Err(_) if concurrent => {} // the task was dropped with its worker's runtime
                         Err(_) => errs.push("unfinished-at-join", format!("sequential mode: the receiver of accepted task {k} reports cancellation after join")),
